@@ -90,7 +90,7 @@ def match_finding(prop, key, findings):
             continue
         guard = fd.get("guard", "True")
         try:
-            ok = bool(eval(guard, {"__builtins__": {}}, dict(key.get("cfg", {}), abs=abs, min=min, max=max)))
+            ok = bool(eval(guard, {"__builtins__": {}}, dict(key.get("cfg", {}), abs=abs, min=min, max=max, str=str)))
         except Exception:
             ok = False
         if ok:
